@@ -786,6 +786,21 @@ fn candidates(base: &MBody, as_block: bool) -> Vec<Cand> {
 			push(format!("{}-balanced-by-output", pre), format!("kern{}/out{}", i, o), b);
 		}
 	}
+	if !as_block {
+		// a transaction never carries a coinbase-flagged element (the reward is claimed in blocks only)
+		for i in 0..base.outs.len() {
+			let mut b = base.clone();
+			b.outs[i].cb = true;
+			push("tx-output-flagged-coinbase".into(), format!("out{}", i), b);
+		}
+		for i in 0..base.kerns.len() {
+			let mut b = base.clone();
+			b.kerns[i].feat = MF::Coinbase;
+			push("tx-kernel-flagged-coinbase-keep-sig".into(), format!("kern{}", i), b.clone());
+			b.kerns[i].resign();
+			push("tx-kernel-flagged-coinbase-resigned".into(), format!("kern{}", i), b);
+		}
+	}
 	if as_block {
 		let ci = base.outs.iter().position(|o| o.cb).expect("coinbase output");
 		let ck = base.kerns.iter().position(|k| k.feat.is_cb()).expect("coinbase kernel");
